@@ -900,8 +900,10 @@ class DestHandler:
             self._params.acked_params.lost_seg_tracker.num_lost_segments == 0
             and not self._params.acked_params.metadata_missing
         ):
-            # We are done and have received everything.
-            self._checksum_verify()
+            # We are done and have received everything. A cancelled transaction keeps its
+            # condition code and incomplete delivery code.
+            if self._params.completion_disposition != CompletionDisposition.CANCELED:
+                self._checksum_verify()
             self.states.step = TransactionStep.TRANSFER_COMPLETION
             self._params.acked_params.deferred_lost_segment_detection_active = False
             return
